@@ -280,6 +280,36 @@ def invert_function(src, qual):
     return ast.unparse(tree)
 
 
+def accessor_function(src, qual):
+    """every read `self.<attr>['KEY']` of the method goes through a new private accessor of its class (`def _rd_<attr>(self, key): return
+    self.<attr>[key]`): behaviour-preserving"""
+    if "." not in qual:
+        return None
+    tree = ast.parse(src)
+    cname = qual.split(".")[0]
+    cls = next((n for n in ast.walk(tree) if isinstance(n, ast.ClassDef) and n.name == cname), None)
+    node = _find(tree, qual)
+    if cls is None or node is None or not node.args.args or node.args.args[0].arg != "self" or any(ast.unparse(d) in ("staticmethod", "classmethod") for d in node.decorator_list):
+        return None
+    attrs = set()
+
+    class T(ast.NodeTransformer):
+        def visit_Subscript(self, n):
+            self.generic_visit(n)
+            if isinstance(n.ctx, ast.Load) and isinstance(n.slice, ast.Constant) and isinstance(n.slice.value, str) and isinstance(n.value, ast.Attribute) \
+                    and isinstance(n.value.value, ast.Name) and n.value.value.id == "self":
+                attrs.add(n.value.attr)
+                return ast.Call(func=ast.Attribute(value=ast.Name(id="self", ctx=ast.Load()), attr=f"_rd_{n.value.attr}", ctx=ast.Load()), args=[n.slice], keywords=[])
+            return n
+    T().visit(node)
+    if not attrs:
+        return None
+    for a in sorted(attrs):
+        cls.body.append(ast.parse(f"def _rd_{a}(self, key):\n    return self.{a}[key]\n").body[0])
+    ast.fix_missing_locations(tree)
+    return ast.unparse(tree)
+
+
 def mutants_of(src, qual, limit=12):
     """Behaviour-CHANGING single-point mutants of one function (statement deleted, comparison flipped, arithmetic operator swapped,
     boolean operator swapped, constant perturbed).  Used only to harden the analysers: a mutant may legitimately be ok / violation /
@@ -380,7 +410,7 @@ def one(args):
     tmp = None
     try:
         src = open(os.path.join(repo, rel)).read()
-        new = {"temp": temp_function, "inline": inline_function, "swap": swap_function, "flip": flip_function, "doc": doc_function, "log": log_function, "invert": invert_function}.get(mode, rename_function)(src, qual)
+        new = {"temp": temp_function, "inline": inline_function, "swap": swap_function, "flip": flip_function, "doc": doc_function, "log": log_function, "invert": invert_function, "accessor": accessor_function}.get(mode, rename_function)(src, qual)
         if new is None:
             return qual, "skipped", ""
         try:
